@@ -3,7 +3,7 @@
 NOTES = ("All checks are property-based tests (pgregory.net/rapid) or native Go fuzz targets with explicit oracles; "
          "see DESIGN.md. Exit 2 / INCONCLUSIVE lines mean build failure, timeout or worker death, never a violation.")
 
-HOOK_COMMITS = []
+HOOK_COMMITS = ["e6fee85"]
 
 ENGINES = [
     dict(name="rapid-inpkg", path="/verif/inpkg", serves_properties=[], kind_free_text="rapid property tests injected into rueidis packages through go test -overlay/-modfile (no file is written to /repo)"),
@@ -164,6 +164,17 @@ PROPS["C02"] = dict(
     level_text="Generated API-level interleavings (every queue call at its own virtual instant, same-instant calls racing) of up to 12 putters with mirrored writer/reader loops, slot counts 2-8 and the ring index forced to wrap; a lost wake-up shows up as a bubble deadlock, which is detected soundly.",
     level_note="The writer/reader loops mirror pipe._backgroundWrite/_backgroundRead; preemption points inside one queue call are explored only through same-instant races and repetition (plus -race in the thorough tier). No trace hook is needed: every transition is observable from inside the package. " + LIMITS,
     units=[U("inpkg", "rueidis", "TestVerif_C02_Queue", T(4000), T(20000, shards=16), race=True)],
+)
+
+PROPS["C24"] = dict(
+    level="exploration",
+    technique="model-based property testing (rapid) of generated timed histories inside a testing/synctest bubble on the pool with counting fake wires, plus a hook-owned schedule for the cancellation/wake-up window",
+    level_text="Generated interleavings of acquisitions (live, expiring, cancelled, already-done contexts), returns, failing/slow/expired dials, idle cleanup and Close, each API call at its own virtual instant; counts of live wires, holders and the pool's own accounting are compared after every history, hangs are detected as bubble deadlocks. The one window random schedules cannot hit (cancellation between the wait-condition check and cond.Wait) is owned through the verif hook.",
+    level_note="Part (a) drives pool.go directly with fake wires (callers' Store discipline is modelled as 'every acquired wire is stored'); the client-level paths (blocking commands, Dedicated, DoStream) are covered by the bubble checks C29/C25. " + LIMITS,
+    units=[
+        U("inpkg", "rueidis", "TestVerif_C24_Pool", T(4000), T(30000, shards=16), race=True),
+        U("inpkg", "rueidis", "TestVerif_C24_PoolLostWakeup", T(150), T(1000, shards=8)),
+    ],
 )
 
 # ---- END PROPS (new entries go above this line)
